@@ -19,7 +19,7 @@ CHECKS = {
              "(panics inside the render closure) excluded; x86_64 cfg only",
         ref="DESIGN.md section 3 C08"),
     "C01": dict(
-        technique="interval abstract interpretation of header fields and value-class taint of entropy-decoded integers to panicking operations on MIR; validation-check reconstruction against a reviewed limit table; call-graph cycle (recursion) census with bound checks; backward data-flow of unwrapped iterator searches; signed-index guard rule; blocking-primitive census; lock re-acquisition dataflow",
+        technique="interval abstract interpretation of header fields and value-class taint of entropy-decoded integers to panicking operations on MIR; validation-check reconstruction against a reviewed limit table; call-graph cycle (recursion) census with bound checks; backward data-flow of unwrapped iterator searches; totality of matches over decoded enumerations and ranged integers (explicit-panic arms vs what the parsers reject); must-raw struct-field taint; registry of repair guards (compare / reject / guarded-call facts); signed-index guard rule; blocking-primitive census; lock re-acquisition dataflow",
         text="Decides four mechanisms the property names, for every input: raw hybrid-uint values never reach checked 32-bit arithmetic, "
              "shift amounts, divisors, negation or abs() without a dominating ordering comparison (R-RAWINT: each report is a "
              "reachable panic); 55 named input limits exist as compare->error checks with the reviewed bound (R-LIMIT); running "
@@ -59,7 +59,7 @@ CHECKS = {
         note="x86_64 only; trusts rustc's target-feature tables and std_detect's meaning of a feature name",
         ref="DESIGN.md section 3 C02"),
     "C05": dict(
-        technique="ordering / control-dependence rules on MIR of the slot bookkeeping + decision-table extraction of the gating predicates by abstract evaluation of MIR over a finite abstraction",
+        technique="ordering / control-dependence rules on MIR of the slot bookkeeping + decision-table extraction of the gating predicates by abstract evaluation of MIR over a finite abstraction; data-dependence of per-channel blend sources on the loop item; registry of repair guards in blend() / patch()",
         text="Claimed narrowly: which reference slot a frame reads and which it is saved into. A frame's sources are read before its own "
              "save; saves are control-dependent on can_reference()/lf_level; the per-frame vectors stay index-aligned; and the complete "
              "decision tables of can_reference/is_keyframe/frame-type helpers equal the format's rules. Does not decide the blend arithmetic.",
@@ -110,7 +110,7 @@ CHECKS = {
         note="kernel families are recognised by name after stripping the architecture suffix",
         ref="DESIGN.md section 3 C16"),
     "C03": dict(
-        technique="comparison of rustc-evaluated format tables and enum code maps with references transcribed from the standard; sibling cross-check of the two channel-partition predicates on MIR; scope (construction-site / loop) rule for the RLE run state; who-may-reset-without-previous-channels rule tied to the table-refusal check",
+        technique="comparison of rustc-evaluated format tables and enum code maps with references transcribed from the standard; sibling cross-check of the two channel-partition predicates on MIR; scope (construction-site / loop) rule for the RLE run state; who-may-reset-without-previous-channels rule tied to the table-refusal check; concrete evaluation (constant propagation) of the previous-channel depth expression; saturating-index rule for compiled lookup tables; registry of repair guards",
         text="Claimed narrowly: three structural necessary conditions of exact lossless decoding. The weighted-predictor reciprocal table "
              "and the delta palette have the specified values; the 14 predictor codes denote the specified predictors (enum discriminants "
              "and the TryFrom<u32> switch); the predicate that keeps a channel in the global section and the one that skips it when "
@@ -119,7 +119,7 @@ CHECKS = {
         note="everything arithmetic about prediction, context trees, fast paths and inverse transforms is undecided",
         ref="DESIGN.md section 8.14"),
     "C04": dict(
-        technique="comparison of rustc-evaluated constant tables with references transcribed from the standards; validation-check reconstruction from MIR against a reviewed table; constant-agreement rule on the LZ77 window; constant-propagating path rule (enum variant fixed) on the single-token shortcut",
+        technique="comparison of rustc-evaluated constant tables with references transcribed from the standards; validation-check reconstruction from MIR against a reviewed table; constant-agreement rule on the LZ77 window; constant-propagating path rule (enum variant fixed) on the single-token shortcut; must-pass-through of Decoder::finalize for every decoder owner",
         text="Claimed narrowly: three structural necessary conditions. The tables the entropy decoder takes from the format (LZ77 special "
              "distances, code-length order) have the specified values; the acceptance checks the property names (ANS final state 0x130000, "
              "complete prefix codes, distribution sums, cluster map holes, Lehmer digits) exist as compare->error; the LZ77 window "
